@@ -11,6 +11,8 @@ NewQuery splices, how Clone finds literals or how the ticker computes its next t
                                                                                (`LiveTick`);
 (4) history: the queries for a span (start, stop] are those of exactly the live ticks T of a task started
     at `start` with T ≤ stop and T − offset ≤ now, in order, each once      (`HistSpec`, `histHolds`);
+    on the observed texts: the historical texts of a span ARE the texts the live ticks of that span issued
+                                                                               (`histIsLive`);
 (5) alignGroup: the group-by-time buckets are aligned with the start of the range (`gbAligned`);
 (5b) fill and tag dimensions are kept (`extraKept`); a result batch is stamped with the window's end (`batchTimeHolds`);
 (6) only declared database/retention policies are queried                     (`onlyDeclared`).
@@ -71,6 +73,9 @@ inductive Schedule where
   | cronEvery (K : Int)
   /-- a cron schedule that ends (year field): its firing times, ascending -/
   | cronList (fires : List Int)
+  /-- a cron schedule naming times of day (`tod`, ns since midnight) ON THE HOST'S CLOCK, which is `off` ns ahead of
+  UTC: it fires at the instants T at which that clock (reading `T + off`) shows a named time of day -/
+  | cronZone (tod : List Int) (off : Int)
 deriving DecidableEq, Repr, Inhabited
 
 /-- `T` is a time at which a task started at `s0` ticks. -/
@@ -80,6 +85,7 @@ def LiveTick (sch : Schedule) (s0 T : Int) : Bool :=
   | .every d true => decide (s0 < T) && decide ((T + zeroOff) % d = 0)
   | .cronEvery K => decide (s0 < T) && decide (T % K = 0)
   | .cronList fires => decide (s0 < T) && fires.contains T
+  | .cronZone tod off => decide (s0 < T) && tod.contains ((T + off) % dayNs)
 
 /-- Closed form of "the first live tick after `t`" (for `t ≥ s0`); `Kap.Props.C16.firstLiveAfter_least`
 proves it is the least `T > t` with `LiveTick sch s0 T` (`none`: there is none). -/
@@ -89,6 +95,11 @@ def firstLiveAfter (sch : Schedule) (s0 t : Int) : Option Int :=
   | .every d true => some (((t + zeroOff) / d + 1) * d - zeroOff)
   | .cronEvery K => some ((t / K + 1) * K)
   | .cronList fires => fires.find? (fun f => decide (t < f))   -- `none`: the schedule has ended
+  | .cronZone tod off =>
+    -- the first instant after `t` whose clock reading is a named time of day: searched among the named times of the
+    -- clock's current and next day (stated as a search, not as cronexpr's field arithmetic)
+    let d := (t + off) / dayNs
+    ((tod.map (fun x => d * dayNs + x - off)) ++ (tod.map (fun x => (d + 1) * dayNs + x - off))).find? (fun T => decide (t < T))
 
 /-! ### (4) the historical list -/
 
@@ -115,6 +126,15 @@ def ticksExact (sch : Schedule) (s0 bound : Int) : Int → List Int → Bool
 def histHolds (sch : Schedule) (start stop now offset period : Int) (ranges : List (Int × Int)) : Bool :=
   ticksExact sch start (min stop (now + offset)) start (ticksOf offset ranges) &&
   ranges.all (fun r => r == rangeOfTick offset period (r.2 + offset))
+
+/-- Observed form of (4): the texts `BatchQueries` lists for a span are exactly the texts the task's live ticks issued
+in that span, in order (texts compared whole). -/
+def histIsLive (hist live : List String) : Bool := hist == live
+
+/-- Observed form of (3) for a task watched from `t0` to `t1`: the ticks behind its queries are the scheduled times
+in (t0, t1] — none missing, none besides (`due` = the schedule's times, ascending). -/
+def liveFollows (due : List Int) (t0 t1 : Int) (ticks : List Int) : Bool :=
+  ticks == due.filter (fun T => decide (t0 < T) && decide (T ≤ t1))
 
 /-! ### (5) alignGroup -/
 
